@@ -45,7 +45,9 @@ TReset   == Ev("reset")
             /\ rest' = {} /\ fifo' = <<>> /\ owned' = [s \in Sponsors |-> 0] /\ psize' = 0
             /\ streaming' = FALSE /\ streamed' = {} /\ nextR' = {} /\ nextF' = <<>> /\ fetched' = FALSE
             /\ res' = NoRes
-TAdd     == Ev("add")    /\ Add(T.ids) /\ ProjOK
+(* which candidates got in is read off the membership projection *)
+GotIn    == SeqSet(T.mem) \ Held
+TAdd     == Ev("add")    /\ Add(T.ids, GotIn) /\ ProjOK
 TRemove  == Ev("remove") /\ Remove(T.ids) /\ ProjOK
 TSetMin  == Ev("setmin") /\ SetMin(T.t) /\ ExpiryExact(T.t) /\ SeqSet(T.out) = res'.R /\ NoDup(T.out) /\ ProjOK
 TPop     == Ev("pop")    /\ (\E RS \in SUBSET ({T.i} \cap rest) : PopNext(RS))
@@ -56,7 +58,7 @@ TStart   == Ev("start")  /\ StartStreaming /\ ProjOK
 TPrepare == Ev("prepare") /\ PrepareStream(T.k, (Held \ SeqSet(T.mem)) \cap rest) /\ ProjOK
 TStream  == Ev("stream") /\ (\E n \in 0 .. Len(T.out) : Stream(T.k, SeqSet(SubSeq(T.out, 1, n))))
             /\ OutOK(T.out) /\ ProjOK
-TFinish  == Ev("finish") /\ FinishStreaming(T.restore) /\ ProjOK
+TFinish  == Ev("finish") /\ FinishStreaming(T.restore, GotIn) /\ ProjOK
 
 TraceNext == TReset \/ TAdd \/ TRemove \/ TSetMin \/ TPop \/ THas \/ TStart \/ TPrepare \/ TStream \/ TFinish
 TraceSpec == TraceInit /\ [][TraceNext]_tvars
